@@ -37,6 +37,13 @@ RULE += (
     "KeyboardInterrupt (process alive, the code's own error handling runs; afterwards old-or-new, and a later "
     "fault-free run must give the complete new state)."
 )
+RULE += (
+    " Names: AUX, MISC and DIST names with two- and three-byte UTF-8 characters are part of the alphabet, and the "
+    "up-to-date re-run must also leave inode, mtime_ns and size of the Manifest unchanged. Histories on ONE Manifest "
+    "object: update(), read distfiles/aux_files/ebuilds/misc, then rounds of (same-size change of an AUX, EBUILD or MISC "
+    "file or of a distfile checksum, update() with the Manifest's mtime pinned to one integer second before and after, "
+    "read the four properties again through the same object): they must equal the model and a fresh parse_manifest()."
+)
 ASSUMPTIONS = [
     "Excl: file names containing whitespace (the Manifest format is whitespace separated) and distfile names with a directory part",
     "Excl: files or directories named CVS, .svn or Manifest anywhere below the package (deliberately skipped by update())",
@@ -48,10 +55,11 @@ ASSUMPTIONS = [
     "crash = process death with completed syscalls durable; loss of un-synced data on power failure is not modelled",
 ]
 BOUNDS = {
-    "quick": "64 directory shapes x 7 distfile sets x {thick,thin} x 2 checksum sets x 2 content variants = 3584 states, 4 orders each (~14k updates, "
-    "each followed by an up-to-date re-run); all permutations (root listing x files/ listing x fetchables, up to 1440 per directory, ~6.9k updates) for "
-    "the 64 shapes with 2 distfiles and the 3 same-base-name shapes, thick; crash sweep: all ordered pairs of 10 directory states incl. 'no Manifest yet' x {thick, thin} = 150 scenarios",
-    "thorough": "same product; all permutations for 64 shapes x {0,2 distfiles} x {thick,thin} x 2 content variants (~21k updates); crash sweep over 16 states = 416 scenarios",
+    "quick": "64 directory shapes x 7 distfile sets x {thick,thin} x 2 checksum sets x 2 content variants = 3584 states + 37 states with non-ASCII names, 4 orders "
+    "each (~14.5k updates, each followed by an up-to-date re-run); all permutations (root listing x files/ listing x fetchables, up to 1440 per directory, ~7.3k "
+    "updates) for the 64 shapes with 2 distfiles, the 3 same-base-name shapes and the thick non-ASCII states; 240 one-object histories (3 shapes x thick/thin x "
+    "2 checksum sets x <=2 rounds over 4 change kinds); crash sweep: all ordered pairs of 10 directory states incl. 'no Manifest yet' x {thick, thin} = 150 scenarios",
+    "thorough": "same product; all permutations for 64 shapes x {0,2 distfiles} x {thick,thin} x 2 content variants; one-object histories of <=3 rounds (1008); crash sweep over 16 states = 416 scenarios",
 }
 
 # ---------------------------------------------------------------------------------------------
@@ -98,9 +106,28 @@ def content(name, variant):
     return ("changed " + name + "\n").encode()  # variant 2: used by the crash sweep for "file modified"
 
 
+NONASCII_DISTS = ["naïve-1.tar.gz", "日本.zip"]  # two- and three-byte UTF-8
+
+
+def file_bytes(st, f):
+    """content of a covered file in state st; names in st['flip'] carry a same-length variation (letter case swapped)"""
+    data = content(f, st["variant"])
+    if f in st.get("flip", ()):
+        data = data.swapcase() if data.swapcase() != data else bytes(b ^ 1 for b in data)
+    return data
+
+
+def dist_of(st, name):
+    """checksums of a distfile in state st; names in st['flip'] get another hash of the same width, same size"""
+    d = dist_chksums(name, CHFS[st["chfs"]])
+    if name in st.get("flip", ()):
+        d = {k: (v if k == "size" else v ^ 1) for k, v in d.items()}
+    return d
+
+
 def dist_chksums(name, chfs):
     """what the fetcher would have computed for the distfile (arbitrary but fixed; includes 0 and all-ones)"""
-    i = DISTS.index(name)
+    i = (DISTS + NONASCII_DISTS).index(name) % 3
     out = {"size": [0, 12345, 2**40][i]}
     for c in chfs:
         if c == "size":
@@ -117,10 +144,10 @@ def dist_chksums(name, chfs):
 def model(st, present_files=None):
     """expected parse result [dist, aux, ebuild, misc]; present_files overrides the file list (recovery check)"""
     chfs = CHFS[st["chfs"]]
-    dist = {d: dist_chksums(d, chfs) for d in st["dist"]}
+    dist = {d: dist_of(st, d) for d in st["dist"]}
     aux, ebuild, misc = {}, {}, {}
     if not st["thin"]:
-        items = present_files if present_files is not None else {f: content(f, st["variant"]) for f in st["files"]}
+        items = present_files if present_files is not None else {f: file_bytes(st, f) for f in st["files"]}
         for f, data in items.items():
             chk = {"size": len(data)}
             for c in chfs:
@@ -150,7 +177,7 @@ def build_dir(data, st):
         p = os.path.join(d, f)
         os.makedirs(os.path.dirname(p), exist_ok=True)
         with open(p, "wb") as fh:
-            fh.write(content(f, st["variant"]))
+            fh.write(file_bytes(st, f))
 
 
 def change_dir(data, old, new):
@@ -167,7 +194,7 @@ def change_dir(data, old, new):
 
 
 def fetchables(st, order):
-    fs = [types.SimpleNamespace(filename=n, chksums=dist_chksums(n, CHFS[st["chfs"]])) for n in st["dist"]]
+    fs = [types.SimpleNamespace(filename=n, chksums=dist_of(st, n)) for n in st["dist"]]
     return _permute(fs, order)
 
 
@@ -262,6 +289,10 @@ def _diff(exp, got):
     return "; ".join(parts)
 
 
+def scrub_events(events):
+    return [(e[0],) + tuple(str(a)[-40:] for a in e[1]) for e in events]
+
+
 def order_sets(st, full):
     """list of (orders, forder) under which update() is run"""
     if not full:
@@ -320,10 +351,17 @@ def check_state(scr, st, full, only=None):
             msgs.append((idx, f"{tag}: Manifest text depends on the order: {text!r} vs {first!r} under {osets[0]}"))
         # up to date: a fresh object, another order, must not touch anything
         o2, f2 = osets[(idx + 1) % len(osets)]
+        st1 = os.stat(os.path.join(pkgdir(scr.data), "Manifest"))
         status, ret2, events = scr.inj.record(lambda: run_update(scr.data, st, o2, f2))
-        if status != "ok" or ret2 is not False or events or manifest_bytes(scr.data) != text:
+        st2 = os.stat(os.path.join(pkgdir(scr.data), "Manifest"))
+        same_file = (st1.st_ino, st1.st_mtime_ns, st1.st_size) == (st2.st_ino, st2.st_mtime_ns, st2.st_size)
+        if status != "ok" or ret2 is not False or events or not same_file or manifest_bytes(scr.data) != text:
             msgs.append(
-                (idx, f"{tag}: second update of an up-to-date Manifest: status={status} returned {ret2!r}, mutating events {events!r}, text changed={manifest_bytes(scr.data) != text}")
+                (
+                    idx,
+                    f"{tag}: second update of an up-to-date Manifest: status={status} returned {ret2!r}, mutating events {scrub_events(events)!r}, "
+                    f"inode/mtime_ns/size unchanged={same_file}, text changed={manifest_bytes(scr.data) != text}",
+                )
             )
         names.add(f"{mode}:second-update-noop")
     for i, t in enumerate(exp):
@@ -333,8 +371,99 @@ def check_state(scr, st, full, only=None):
         names.add("nested-aux")
     names.add("orders-all-permutations" if full else "orders-id-rev")
     names.add(f"variant-{st['variant']}")
+    if any(ord(ch) > 127 for n in st["files"] + st["dist"] for ch in n):
+        names.add(f"{mode}:non-ascii-name")
     names.add(f"chfs-{st['chfs']}")
     return msgs, n, names
+
+
+# histories on ONE Manifest object -----------------------------------------------------------------
+
+HIST_SECOND = 1_000_000_000  # the Manifest's mtime is pinned to this integer second around every update()
+HIST_SHAPES = [
+    (["p-1.ebuild", "metadata.xml", "files/a.patch"], ["d-1.tar.gz", "b.tar"]),
+    (["p-1.ebuild", "p-2.ebuild", "ChangeLog", "files/a.patch", "files/sub/x.patch"], ["D-2.zip"]),
+    (["p-1.ebuild", "файл", "files/naïve.patch"], ["日本.zip"]),
+]
+HIST_CHANGES = ["aux", "ebuild", "misc", "dist"]  # which covered thing gets a same-size change before the next update()
+
+
+def _hist_target(st, kind):
+    if kind == "dist":
+        return st["dist"][0]
+    for f in st["files"]:
+        if (kind == "aux" and f.startswith("files/")) or (kind == "ebuild" and f.endswith(".ebuild")) or (
+            kind == "misc" and "/" not in f and not f.endswith(".ebuild")
+        ):
+            return f
+    raise AssertionError(kind)
+
+
+def check_history(scr, shape, thin, chfs, changes):
+    """one Manifest object: update(), read its properties, then rounds of (same-size change of a covered file or of a
+    distfile checksum, update() within the same second, read the properties again through the same object); what the
+    object reports must equal both the model and a fresh parse of the file. -> (messages, class names)"""
+    from pkgcore.ebuild import digest
+
+    files, dist = HIST_SHAPES[shape]
+    st = dict(state(files, 1, dist, thin, chfs), flip=[])
+    mode = "thin" if thin else "thick"
+    names = {f"hist:{mode}"}
+    scr.reset()
+    build_dir(scr.data, st)
+    mpath = os.path.join(pkgdir(scr.data), "Manifest")
+    m = digest.Manifest(mpath, thin=thin, allow_missing=True)
+
+    def props():
+        return [{k: dict(v) for k, v in d.items()} for d in (m.distfiles, m.aux_files, m.ebuilds, m.misc)]
+
+    def step(tag, expect_write):
+        if os.path.exists(mpath):
+            os.utime(mpath, (HIST_SECOND, HIST_SECOND))
+        ret = m.update(fetchables(st, "id"), chfs=CHFS[chfs])
+        os.utime(mpath, (HIST_SECOND, HIST_SECOND))
+        if bool(ret) != expect_write:
+            return f"{tag}: update() returned {ret!r}, expected {expect_write}"
+        exp = model(st)
+        fresh = parse(scr.data)
+        if fresh != exp:
+            return f"{tag}: the Manifest file does not parse back to the covered files: {_diff(exp, fresh)}"
+        got = props()
+        if got != exp:
+            return f"{tag}: the same Manifest object reports stale data after its own update(): {_diff(exp, got)} (a fresh parse of the file is right)"
+        return None
+
+    try:
+        err = step("initial update", True)
+        done = []
+        for kind in changes:
+            if err:
+                break
+            done.append(kind)
+            target = _hist_target(st, kind)
+            st["flip"] = sorted(set(st["flip"]) ^ {target})
+            if kind != "dist":
+                with open(os.path.join(pkgdir(scr.data), target), "wb") as fh:
+                    fh.write(file_bytes(st, target))
+            covered = kind == "dist" or not thin
+            names.add(f"hist:{mode}:change-{kind}" + ("" if covered else "-not-covered"))
+            err = step(f"after same-size change of {kind} {target!r} (history {done})", covered)
+    except Exception as e:
+        err = f"history {changes}: raised {type(e).__name__}: {e}"
+    if err:
+        names.add("hist:MISMATCH")
+        return [f"{mode} {files} dist={dist} chfs={CHFS[chfs]}, one Manifest object, mtime pinned: {err}"[:900]], names
+    return [], names
+
+
+def hist_space(tier):
+    out = []
+    depth = 2 if tier == "quick" else 3
+    for shape, thin, chfs in itertools.product(range(len(HIST_SHAPES)), (False, True), (0, 1)):
+        for d in range(1, depth + 1):
+            for changes in itertools.product(HIST_CHANGES, repeat=d):
+                out.append((shape, thin, chfs, list(changes)))
+    return out
 
 
 # crash sweep -------------------------------------------------------------------------------
@@ -441,6 +570,8 @@ def rt_space(tier):
     out = []
     for files, dist, thin, chfs, variant in itertools.product(dir_shapes(), dist_sets(), (False, True), (0, 1), (0, 1)):
         out.append((state(files, variant, dist, thin, chfs), False))
+    for st in nonascii_states():
+        out.append((st, False))
     return out
 
 
@@ -453,8 +584,26 @@ def same_name_shapes():
     ]
 
 
+def nonascii_states():
+    """AUX / MISC / DIST names with two- and three-byte UTF-8 characters (character count != byte count)"""
+    shapes = [
+        ["p-1.ebuild", "files/naïve.patch"],
+        ["p-1.ebuild", "файл"],
+        ["p-1.ebuild", "metadata.xml", "files/日本.patch", "files/naïve.patch"],
+    ]
+    dists = [[], ["naïve-1.tar.gz"], ["日本.zip", "d-1.tar.gz"]]
+    out = []
+    for files, dist, thin, chfs in itertools.product(shapes, dists, (False, True), (0, 1)):
+        out.append(state(files, 1, dist, thin, chfs))
+    out.append(state(["p-1.ebuild"], 1, ["naïve-1.tar.gz", "日本.zip"], True, 0))
+    return out
+
+
 def perm_space(tier):
     out = []
+    for st in nonascii_states():
+        if not st["thin"] and st["chfs"] == 0:
+            out.append((st, True))
     for files in same_name_shapes():
         for variant in (1, 0):
             out.append((state(files, variant, [], False, 0), True))
@@ -479,6 +628,9 @@ def tasks(tier):
     for thin in (False, True):
         for i in range(ns):
             out.append(("sweep", tier, thin, i))
+    n = len(hist_space(tier))
+    for i in range(0, n, 20):
+        out.append(("hist", tier, i, min(n, i + 20)))
     return out
 
 
@@ -505,6 +657,16 @@ def work(task):
                 for k in names:
                     classes[k] = classes.get(k, 0) + 1
             samples = [space[task[2]][0]]
+        elif task[0] == "hist":
+            space = hist_space(task[1])[task[2] : task[3]]
+            for shape, thin, chfs, changes in space:
+                evals += 1
+                msgs, names = check_history(scr, shape, thin, chfs, changes)
+                if msgs:
+                    viol.append({"kind": "hist", "shape": shape, "thin": thin, "chfs": chfs, "changes": changes, "msg": msgs[0]})
+                for k in names:
+                    classes[k] = classes.get(k, 0) + 1
+            samples = [{"history_shape": HIST_SHAPES[space[0][0]][0], "thin": space[0][1], "changes": space[0][3]}]
         else:
             _, tier, thin, i = task
             sts = sweep_states(tier)
@@ -540,6 +702,8 @@ def replay(case):
         if case["kind"] == "state":
             msgs, _, _ = check_state(scr, case["state"], case["full"], only=case["order_index"])
             return [m for _, m in msgs]
+        if case["kind"] == "hist":
+            return check_history(scr, case["shape"], case["thin"], case["chfs"], case["changes"])[0]
         v, _, _ = check_sweep(scr, case["old"], case["new"], only_plan=case["plan"])
         return [x["msg"] for x in v if x.get("what") == case.get("what")] or [x["msg"] for x in v]
     finally:
